@@ -1,7 +1,6 @@
 #!/usr/bin/env python3
 """Regenerates MANIFEST.json from props.json + the tables below."""
 import json, subprocess
-props = json.load(open('/verif/props.json'))
 ENGINES = {
  "e2": ("sim/e2", "storesim: real headerfs stores + real bbolt + chainimport under tape-generated histories, injected file/db faults, crash-image enumeration"),
  "e4": ("sim/e4", "cachesim: real lru.Cache, real caller goroutines released one at a time by the tape at hook-H3 yield points; porcupine linearizability + invariants"),
@@ -9,15 +8,11 @@ ENGINES = {
  "e1": ("sim/e1", "netsim: whole real ChainService (btcd peer/connmgr stack, block manager, work manager, stores, bbolt, caches) in a synctest bubble against event-driven simulated peers over a simulated transport"),
  "e5": ("sim/e5", "racesim: E1/E3 workloads free-running under the Go race detector"),
 }
-TEXT = {
- "C07": ("Seeded search over append/rollback/reopen histories with injected I/O faults on the real stores, compared op by op with a two-list reference model. Sampling, not proof; the right level because the property quantifies over unbounded histories and fault sequences.",
-         "Trusts bbolt commit atomicity and the reference model; failed rollbacks and multi-fault calls end a run without verdict.", "7 C07"),
- "C08": ("For each generated history the crash points of the final operation(s) are enumerated exhaustively (every durable-step boundary, one cut length per torn-write class inside every file write); each crash image is restarted on real code and checked against the pre/post model states, then resumed. Exhaustive per operation, sampled over histories.",
-         "Process-death crash model (completed syscalls durable in order); power-loss reordering not modelled; bbolt commit atomic.", "7 C08"),
- "C16": ("Seeded search over operation lists and tape-chosen interleavings of 1-3 real caller goroutines at every point where the cache touches its index outside the mutex; every history checked for linearizability against a sequential LRU with porcupine plus structural invariants. Sampling of a small-scope space (<=3 callers x <=4 ops, <=4 keys); near-exhaustive for two-operation interleavings.",
-         "Locked sections are atomic; interleavings finer than hook H3's yield points are not explored; porcupine timeouts are inconclusive.", "7 C16"),
-}
-TEXT.update(json.load(open('/verif/manifest_text.json')) if __import__('os').path.exists('/verif/manifest_text.json') else {})
+import glob, os
+props = {os.path.basename(f)[:-5]: json.load(open(f)) for f in sorted(glob.glob('/verif/props.d/*.json'))}
+TEXT = {}
+for f in sorted(glob.glob('/verif/manifest.d/*.json')):
+    d = json.load(open(f)); TEXT[os.path.basename(f)[:-5]] = (d["text"], d["note"], d.get("design_ref", ""))
 hooks = subprocess.run("git -C /repo log --format=%h --grep='^verif hook'", shell=True, capture_output=True, text=True).stdout.split()
 man = {
  "version": 1,
@@ -39,7 +34,7 @@ for pid in sorted(TEXT):
      "engine": cfg["engine"], "level_claimed": {"category": cfg["level"], "text": text, "design_ref": ref},
      "level_note": note, "technique": cfg.get("technique", "deterministic simulation with fault injection (seeded decision tape, simulated faults/schedule, reference-model oracle)")})
 for e, ps in sorted(used.items()):
-    man["engines"].append({"name": e, "path": ENGINES[e][0], "serves_properties": ps, "kind_free_text": ENGINES[e][1]})
+    man["engines"].append({"name": e, "path": ENGINES.get(e, ("sim/"+e,))[0], "serves_properties": ps, "kind_free_text": ENGINES.get(e, (0, props[ps[0]].get("engine_text", "compsim: one real component in a synctest bubble against simulator-owned counterparts")))[1]})
 allp = [json.loads(l)["id"] for l in open('/verif/properties.jsonl')]
 NA = json.load(open('/verif/not_applicable.json')) if __import__('os').path.exists('/verif/not_applicable.json') else {}
 for p in allp:
